@@ -169,7 +169,7 @@ def check_design(tier, ev):
     if tier == "quick":
         plans = [((1, 2, 3), 2, 2, 1, (1,)), ((1, 2), 2, 2, 1, (1, 2))]
     else:
-        plans = [((1, 2, 3), 2, 2, 3, (1, 2)), ((1, 2), 3, 2, 2, (1,)), ((1, 2), 2, 3, 2, (1, 2))]
+        plans = [((1, 2, 3), 2, 2, 2, (1, 2)), ((1, 2), 3, 2, 1, (1,)), ((1, 2), 2, 3, 1, (1, 2))]
     parts = []
     for (hs, mm, mg, mc, cs) in plans:
         cfg = os.path.join(d, "inv_%d_%d_%d_%d.cfg" % (len(hs), len(cs), mm, mg))
@@ -185,7 +185,7 @@ def check_design(tier, ev):
 def emit_plan(tier):
     if tier == "quick":
         return [("empty", 6), ("one", 4), ("clo", 4), ("two", 3), ("reload", 4), ("regen", 3), ("same", 3)], (100, 30)
-    return [("empty", 8), ("one", 4), ("clo", 5), ("two", 3), ("reload", 4), ("regen", 4), ("same", 3)], (1000, 45)
+    return [("empty", 8), ("one", 4), ("clo", 5), ("two", 3), ("reload", 4), ("regen", 4), ("same", 3)], (600, 45)
 
 
 def emitted(tier, ev):
